@@ -107,20 +107,25 @@ def run(rep, tier, seed, keep=False):
         events = []
         desc = {}
 
+        # a second engine whose iterator limit is switched on but far away: the guard around every operator input must not
+        # change what is consumed
+        engine_lim = yaql.YaqlFactory().create(options={'yaql.limitIterators': 500})
+
         def add(chain_builder, note):
             ids = Ids()
             chain = chain_builder(ids)
             ast = build(chain)
             text = g.render(ast)
-            outcome, res, pulls = real_run(engine, ctx, text, B + 60, tick_log)
-            cnt = {}
-            for t in tick_log:
-                cnt[t] = cnt.get(t, 0) + 1
-            i = len(events)
-            events.append({'id': i, 'stages': [{'f': f, 'args': [g.tla_ast(x) for x in a]} for f, a in chain[:-1]],
-                           'demand': {'f': chain[-1][0], 'args': [g.tla_ast(x) for x in chain[-1][1]]}, 'fuel': B,
-                           'pulls': pulls, 'outcome': outcome, 'res': res, 'ticks': [[k, v] for k, v in sorted(cnt.items())] or [[0, 0]]})
-            desc[i] = (text, outcome, pulls, dict(cnt), note)
+            for eng_, tag in ((engine, ''), (engine_lim, ' [limitIterators=500]')):
+                outcome, res, pulls = real_run(eng_, ctx, text, B + 60, tick_log)
+                cnt = {}
+                for t in tick_log:
+                    cnt[t] = cnt.get(t, 0) + 1
+                i = len(events)
+                events.append({'id': i, 'stages': [{'f': f, 'args': [g.tla_ast(x) for x in a]} for f, a in chain[:-1]],
+                               'demand': {'f': chain[-1][0], 'args': [g.tla_ast(x) for x in chain[-1][1]]}, 'fuel': B,
+                               'pulls': pulls, 'outcome': outcome, 'res': res, 'ticks': [[k, v] for k, v in sorted(cnt.items())] or [[0, 0]]})
+                desc[i] = (text + tag, outcome, pulls, dict(cnt), note)
         # exhaustive: <= 1 stage + demand (quick) / <= 2 stages + demand (thorough; quick samples the 2-stage ones)
         ns = len(stages(Ids()))
         nd = len(demands(Ids()))
